@@ -48,6 +48,77 @@ def gen_history(rng, n):
     return evs
 
 
+def gen_multi_victim_history(rng, shape):
+    """Histories in which ONE event removes SEVERAL stored events inside its own transaction.  gen_history gives every event
+    a later timestamp than its predecessors and a kind-5 one or two references drawn from all authors, so almost every event
+    there has at most one victim; but the removal of the victims is a loop, and a loop has states that a single pass does not
+    have (after the first victim is gone completely, between two victims, inside the last one).  Three shapes:
+      delete : 3-5 own events of different kinds and tag counts (different numbers of index entries each), a foreign event and
+               an own event that is not named; then a kind-5 naming all the victims, the foreign event (must survive) and an
+               unknown id, in shuffled order;
+      replace: 2-4 versions of one replaceable / parameterised-replaceable / kind-0 / kind-3 address that arrived newest
+               first (each is older than everything stored, so all of them stay), for kind 30000 also a version with another
+               d value (must survive); then a version newer than all of them, which supersedes them all at once;
+      both   : such versions and own notes; a kind-5 naming the notes, the oldest version and a foreign event; then the newest
+               version superseding the remaining ones.
+    Every history ends with an ordinary note so that 'later events proceed' has something to apply.  Which events really have
+    several victims is not taken from here: enumerate_faults(min_victims=2) observes it in the fault-free reference run."""
+    me, other = AUTH[0], AUTH[1]
+    evs = []
+
+    def ev(kind, pubkey, ts, tags):
+        e = {"id": "%02x" % len(evs) + rng.randbytes(31).hex(), "pubkey": pubkey, "created_at": ts, "kind": kind, "tags": tags,
+             "content": "m%d" % len(evs), "sig": "00" * 64}
+        evs.append(e)
+        return e
+
+    def note(pubkey, ts):
+        tags = [["t", rng.choice(["a", "b"])], ["p", rng.choice(AUTH)], ["t", "c"]][:rng.choice([0, 1, 2, 3])]
+        return ev(rng.choice([1, 1, 7]), pubkey, ts, tags)
+
+    def versions(kind, d, n, newest_ts):
+        out = []
+        for j in range(n):                       # newest first: nothing stored is older, so every version stays
+            if kind == 30000 and j == 1:
+                ev(kind, me, newest_ts - 5, [["d", d + "-other"]])
+            tags = ([["d", d]] if kind == 30000 else []) + [["t", "a"]][:rng.choice([0, 1])]
+            out.append(ev(kind, me, newest_ts - 10 * j, tags))
+        return out
+
+    rkind = rng.choice([10002, 30000, 0, 3])
+    d = rng.choice(["x", "y"])
+    if shape == "delete":
+        stored = [("note", me)] * rng.randint(2, 4) + [("repl", me), ("note", other), ("keep", me)]
+        rng.shuffle(stored)
+        named = []
+        for j, (what, who) in enumerate(stored):
+            e = ev(rkind, who, T0 + 10 * j, [["d", d]] if rkind == 30000 else []) if what == "repl" else note(who, T0 + 10 * j + rng.choice([0, 1]))
+            if what != "keep":
+                named.append(e["id"])
+        named.append(rng.randbytes(32).hex())
+        rng.shuffle(named)
+        ev(5, me, T0 + 500, [["e", x] for x in named])
+    elif shape == "replace":
+        note(rng.choice(AUTH), T0 + 1)
+        versions(rkind, d, rng.randint(2, 4), T0 + 300)
+        ev(rkind, me, T0 + 500, ([["d", d]] if rkind == 30000 else []) + [["t", "b"], ["p", other]][:rng.choice([0, 1, 2])])
+    else:
+        foreign = note(other, T0 + 1)
+        vs = versions(rkind, d, rng.randint(3, 4), T0 + 300)
+        notes = [note(me, T0 + 310 + j) for j in range(rng.randint(2, 3))]
+        named = [e["id"] for e in notes] + [vs[-1]["id"], foreign["id"]]
+        rng.shuffle(named)
+        ev(5, me, T0 + 400, [["e", x] for x in named])
+        ev(rkind, me, T0 + 500, [["d", d]] if rkind == 30000 else [])
+    note(me, T0 + 600)
+    return evs
+
+
+def stored_ids(backend, dump):
+    """the ids of the stored events, read off a dump (LMDB: the keys of the primary records, 0x00 + id)"""
+    return {k[2:] for k in dump if k.startswith("00") and len(k) == 66} if backend == "kv" else set(dump["events"])
+
+
 # ---- (a) injected engine errors ------------------------------------------------------------------------
 
 class SqlFault:
@@ -97,7 +168,9 @@ def kv_fault_run(store, ev, k, exc_name):
     return res, fired, n
 
 
-def enumerate_faults(report, drv, rng, backend, evs, tag, max_points):
+def enumerate_faults(report, drv, rng, backend, evs, tag, max_points, min_victims=0):
+    """min_victims: only the events whose fault-free application removes at least that many stored events are faulted (the
+    others are applied as the history around them)"""
     store = KVStore() if backend == "kv" else SQLStore()
     sqlf = SqlFault(store) if backend == "sql" else None
     points = 0
@@ -121,6 +194,12 @@ def enumerate_faults(report, drv, rng, backend, evs, tag, max_points):
                 store.add(ev)
                 _, nmut = sqlf.disarm()
             after = store.dump()
+            victims = len(stored_ids(backend, before) - stored_ids(backend, after))
+            if victims < min_victims:
+                continue
+            if victims >= 2:
+                report.count("multi_victim_events_" + backend)
+            expected = None      # the state of the history without event i: the same for every k
             ks = list(range(1, nmut + 1))
             if len(ks) > max_points:
                 ks = sorted(rng.sample(ks, max_points))
@@ -161,16 +240,20 @@ def enumerate_faults(report, drv, rng, backend, evs, tag, max_points):
                 for e in evs[i + 1:]:
                     store.add(e)
                 final = store.dump()
-                store.reset()
-                for j, e in enumerate(evs):
-                    if j != i:
-                        store.add(e)
-                expected = store.dump()
+                if expected is None:
+                    store.reset()
+                    for j, e in enumerate(evs):
+                        if j != i:
+                            store.add(e)
+                    expected = store.dump()
                 if mid == before and final != expected:
                     report.property_failure("%s: after a failed event the later events did not produce the state of the history "
                                             "without it" % backend, payload, None)
                 report.case((backend, tag, i, k), nontrivial=True,
-                            sample={"backend": backend, "event_kind": ev["kind"], "fault_at": k, "of": nmut, "exception": exc_name})
+                            sample={"backend": backend, "event_kind": ev["kind"], "fault_at": k, "of": nmut, "exception": exc_name,
+                                    "victims": victims})
+                if victims >= 2:
+                    report.count("multi_victim_fault_points_" + backend)
         # model correspondence of the reference (fault-free) run
         lines = [{"op": "kv.reset" if backend == "kv" else "sql.reset"}]
         for e in evs:
@@ -406,7 +489,10 @@ def run(report, tier, seed):
         "histories of 3-6 events (regular, replaceable, parameterised replaceable, kind-0, kind-5 with one or two "
         "references); for every event and every (quick: up to 6 sampled) mutation point k: an engine exception (MapFullError / "
         "lmdb.Error / RuntimeError below kv.py; RuntimeError at the k-th SQL statement) — state must equal 'before', later "
-        "events must give the state of the history without the event; LMDB also: the engine refuses to begin the write transaction of "
+        "events must give the state of the history without the event; directed histories with multi-victim events (a kind-5 naming "
+        "3-5 own events of different kinds plus a foreign and an unknown id; a replaceable / parameterised / kind-0 / kind-3 version "
+        "superseding 2-4 older versions that arrived newest-first; both in one history): EVERY mutation point of every event that "
+        "removes two or more stored events in the fault-free run, both backends, same oracle; LMDB also: the engine refuses to begin the write transaction of "
         "the first task of a fresh writer (or of the task after a deletion that found nothing) — later "
         "events must give the state of the history without the event; LMDB bursts: 2-5 events acknowledged and queued before the writer runs, a fault at a sampled mutation of the whole batch must cost at most the one event it hit; process kills (os._exit) at sampled mutation points on "
         "file-backed LMDB and SQLite, store reopened by the parent; non-trivial = every fault point")
@@ -419,6 +505,16 @@ def run(report, tier, seed):
             evs = gen_history(rng, rng.randint(3, 6))
             for backend in ("kv", "sql"):
                 enumerate_faults(report, drv, rng, backend, evs, hidx, max_points)
+        # events with SEVERAL victims (a kind-5 naming 3+ own events, a replaceable version superseding 2+ older ones, both in
+        # one history): EVERY mutation point of such an event on both backends, never a sample — the interesting positions
+        # (after the first victim is gone, between victims, inside the last one) are a minority of a transaction of 20-50
+        # mutations and a sample of six mostly lands in the puts of the new event; victim counts up to 5 on general grounds
+        # (first / middle / last victim are all distinct positions from three victims on)
+        shapes = ["delete", "replace", "both"] * (2 if tier == "quick" else 12)
+        for hidx, shape in enumerate(shapes):
+            evs = gen_multi_victim_history(rng, shape)
+            for backend in ("kv", "sql"):
+                enumerate_faults(report, drv, rng, backend, evs, "mv-%s-%d" % (shape, hidx), 10 ** 6, min_victims=2)
         for hidx in range(4 if tier == "quick" else 60):
             evs = gen_history(rng, rng.randint(2, 5))
             begin_fault_case(report, rng, evs, hidx, after_missing_delete=bool(hidx % 2))
@@ -442,11 +538,15 @@ def replay(report, path):
     data = json.load(open(path))
     drv = common.Driver()
     rng = random.Random(0)
+    seen = []
     try:
         for it in (data.get("violations") or []):
             r = it.get("replay") or {}
             if "fault_at" in r:
-                enumerate_faults(report, drv, rng, r["backend"], r["events"], "replay", 100)
+                if (r["backend"], r["events"]) in seen:      # the enumeration covers every fault position of the history
+                    continue
+                seen.append((r["backend"], r["events"]))
+                enumerate_faults(report, drv, rng, r["backend"], r["events"], "replay", 10 ** 6)
             elif "kill_at" in r:
                 kill_case(report, rng, r["backend"], r["events"], r["kill_at"], "replay")
             elif r.get("case") == "begin-fault":
